@@ -515,9 +515,13 @@ def run_long(c):
                 ok_res = resn is not None and r["rn"] < resn + sg
                 ok_abs = False
                 if "absdelta" in cfg and r["nit"] >= 1:
-                    p = _eager(mat, flat, jv, x0e, dict(resnorm=0., miniter=r["nit"]), r["nit"] - 1)
+                    pcfg = dict(resnorm=0., miniter=r["nit"])    # cannot converge: returns the iterate nit-1 of the same solver
+                    if solver == "eager":
+                        p = _eager(mat, flat, jv, x0e, pcfg, r["nit"] - 1)
+                    else:
+                        p = _static(_static_fn(n, layout, cplx, False, True, False, False, c["x0"], True), Aj, jv, x0v, pcfg, r["nit"] - 1)
                     if "raised" in p or p["nit"] != r["nit"] - 1:
-                        V("long|eager|trajectory-not-reproducible", "%s: re-run to iteration %d gives %s" % (where, r["nit"] - 1, str(p)[:120]))
+                        V("long|%s|trajectory-not-reproducible" % solver, "%s: re-run to iteration %d gives %s" % (where, r["nit"] - 1, str(p)[:120]))
                     else:
                         dE = S.energy(A, j, p["x"]) - r["E"]
                         ok_abs = dE < cfg["absdelta"] * (1 + 1e-3) + 2 * sE
@@ -540,8 +544,6 @@ def run_long(c):
                       % (tag, d, 2 * resn / lam.min(), e["nit"], s_["nit"]))
             elif abs(e["E"] - s_["E"]) > 1e3 * cfg["absdelta"]:
                 V("long|disagree|solution", "%s: E(x_eager) - E(x_static) = %.3e (nit %d / %d)" % (tag, e["E"] - s_["E"], e["nit"], s_["nit"]))
-            if abs(e["nit"] - s_["nit"]) > 2:
-                V("long|disagree|iterations", "%s: eager stops after %d, static after %d iterations" % (tag, e["nit"], s_["nit"]))
     if found:
         keys = sorted(found)
         return bad("%s%s" % (found[keys[0]], "" if len(keys) == 1 else "  [+%d other kinds, see detail]" % (len(keys) - 1)),
